@@ -142,6 +142,27 @@ class PlainNewArgs(Tree):
         return ()
 
 
+from c10_pkg.sub.classes import DeepMerge  # noqa: E402,F401  (resolvable class in a package submodule)
+
+
+def _instrument_length():
+    """BTrees.Length.Length (a library class in a dotted module, state = an int) with its resolver
+    wrapped: arguments logged, result kept non-negative like `Counter` (the model works in naturals)"""
+    import BTrees.Length
+    orig = BTrees.Length.Length._p_resolveConflict
+    if getattr(orig, '_c10', False):
+        return
+
+    def _p_resolveConflict(self, old, s1, s2):
+        _log(21, old, s1, s2)
+        return max(orig(self, old, s1, s2), 0)
+    _p_resolveConflict._c10 = True
+    BTrees.Length.Length._p_resolveConflict = _p_resolveConflict
+
+
+_instrument_length()
+from BTrees.Length import Length  # noqa: E402,F401
+
 # cid -> (module, name, importable, has_resolver, behaviour for the model driver)
 GONE_CID = 9            # c10_classes.Gone does not exist: records of it are written by hand
 GONE2_CID = 8           # nosuchmodule_c10.Gone: module does not exist either
@@ -158,6 +179,8 @@ TABLE = {
     16: ('c10_classes', 'NeedsArg', 1, 1, 'v16'),
     17: ('c10_classes', 'NeedsArgNew', 1, 1, 'v17'),
     18: ('c10_classes', 'SideEffect', 1, 1, 'v18'),
+    19: ('c10_pkg.sub.classes', 'DeepMerge', 1, 1, 'v19'),
+    21: ('BTrees.Length', 'Length', 1, 1, 'k'),
     9: ('c10_classes', 'Gone', 0, 0, 'e'),
     8: ('nosuchmodule_c10', 'Gone', 0, 0, 'e'),
     20: ('ZODB.tests.MinPO', 'MinPO', 1, 0, 'e'),
